@@ -109,6 +109,18 @@ def printClauses (open_ : Option Date) (close : CloseSpec) (clear : Bool) : List
 
 def PKey.tok : PKey → Tok | .idx n => .int n | .col w => .word w
 
+def distinctToks (d : Bool) : List Tok := if d then [.word "distinct"] else []
+def pivotToks : Option (PKey × PKey) → List Tok
+  | none => []
+  | some (a, b) => [.word "pivot", .word "by", a.tok, .sym .comma, b.tok]
+def limitToks : Option Nat → List Tok
+  | none => []
+  | some n => [.word "limit", .int n]
+def aliasToks : Option String → List Tok
+  | none => []
+  | some a => [.word "as", .word a]
+def orderingToks (desc asc : Bool) : List Tok := if desc then [.word "desc"] else if asc then [.word "asc"] else []
+
 def printListItems : List (Option Lit) → List Tok
   | [] => [.sym .rparen]
   | none :: rest => .sym .comma :: printListItems rest
@@ -164,8 +176,7 @@ def printArgs : List LExpr → List Tok
   | [e] => printExpr e ++ [.sym .rparen]
   | e :: es => printExpr e ++ .sym .comma :: printArgs es
 def printTarget : LTarget → List Tok
-  | .mk e none => printExpr e
-  | .mk e (some a) => printExpr e ++ [.word "as", .word a]
+  | .mk e a => printExpr e ++ aliasToks a
 def printTargets : List LTarget → List Tok
   | [] => []
   | [t] => printTarget t
@@ -178,7 +189,7 @@ def printKeys : List LKey → List Tok
   | [k] => printKey k
   | k :: ks => printKey k ++ .sym .comma :: printKeys ks
 def printOrder : LOrder → List Tok
-  | .mk k desc asc => printKey k ++ (if desc then [.word "desc"] else if asc then [.word "asc"] else [])
+  | .mk k desc asc => printKey k ++ orderingToks desc asc
 def printOrders : List LOrder → List Tok
   | [] => []
   | [o] => printOrder o
@@ -191,25 +202,32 @@ def printFrom : LFrom → List Tok
   | .expr e o c cl => .word "from" :: (printExpr e ++ printClauses o c cl)
 def printSelect : LSelect → List Tok
   | .mk distinct targets from_ where_ group having order pivot limit =>
-    .word "select" :: ((if distinct then [.word "distinct"] else []) ++
-      (match targets with | none => [.sym .star] | some ts => printTargets ts) ++
-      printFrom from_ ++
-      (match where_ with | none => [] | some e => .word "where" :: printExpr e) ++
-      (match group with | [] => [] | ks => .word "group" :: .word "by" :: printKeys ks) ++
-      (match having with | none => [] | some e => .word "having" :: printExpr e) ++
-      (match order with | [] => [] | os => .word "order" :: .word "by" :: printOrders os) ++
-      (match pivot with | none => [] | some (a, b) => [.word "pivot", .word "by", a.tok, .sym .comma, b.tok]) ++
-      (match limit with | none => [] | some n => [.word "limit", .int n]))
+    .word "select" :: (distinctToks distinct ++
+      ((match targets with | none => [.sym .star] | some ts => printTargets ts) ++
+      (printFrom from_ ++
+      ((match where_ with | none => [] | some e => .word "where" :: printExpr e) ++
+      ((match group with | [] => [] | k :: ks => .word "group" :: .word "by" :: printKeys (k :: ks)) ++
+      ((match having with | none => [] | some e => .word "having" :: printExpr e) ++
+      ((match order with | [] => [] | o :: os => .word "order" :: .word "by" :: printOrders (o :: os)) ++
+      (pivotToks pivot ++ limitToks limit))))))))
 end
+
+def optExprToks (kw : String) : Option LExpr → List Tok
+  | none => []
+  | some e => .word kw :: printExpr e
+
+def atToks : Option String → List Tok
+  | some n => [.word "at", .word n]
+  | none => []
+
+def acctToks : Option String → List Tok
+  | some s => [.str s]
+  | none => []
 
 def printStmt : LStmt → List Tok
   | .select s => printSelect s
-  | .balances sf f w =>
-    .word "balances" :: ((match sf with | some n => [.word "at", .word n] | none => []) ++ printFrom f ++
-      (match w with | none => [] | some e => .word "where" :: printExpr e))
-  | .journal a sf f =>
-    .word "journal" :: ((match a with | some s => [.str s] | none => []) ++
-      (match sf with | some n => [.word "at", .word n] | none => []) ++ printFrom f)
+  | .balances sf f w => .word "balances" :: (atToks sf ++ (printFrom f ++ optExprToks "where" w))
+  | .journal a sf f => .word "journal" :: (acctToks a ++ (atToks sf ++ printFrom f))
   | .print f => .word "print" :: printFrom f
 
 /-! ### the abstract syntax tree of a layered tree -/
